@@ -28,6 +28,10 @@ void abtmc_pre(const volatile void *addr, unsigned size, int kind);
 /* bookkeeping after it executed (never a scheduling point).  wrote: 0 = the
  * operation turned out to be a pure read (failed CAS, TAS on a set flag) */
 void abtmc_post(const volatile void *addr, unsigned size, int kind, int wrote);
+/* extra scheduling point right AFTER a lock release (spinlock clear): lets
+ * another thread run between the release and plain accesses that follow it,
+ * i.e. exposes work that slipped out of a critical section */
+void abtmc_after_release(const volatile void *addr);
 
 #ifdef ABTMC_PASSTHROUGH
 /* free-running flavour (TSan pass): hooks compiled out */
@@ -114,6 +118,7 @@ void abtmc_post(const volatile void *addr, unsigned size, int kind, int wrote);
         abtmc_pre(abtmc_p_, 1, ABTMC_K_STORE);                                 \
         __atomic_clear((_Bool *)abtmc_p_, mo);                                 \
         abtmc_post(abtmc_p_, 1, ABTMC_K_STORE, 1);                             \
+        abtmc_after_release(abtmc_p_);                                         \
     })
 
 /* fences are not scheduling points under the SC assumption (DESIGN 3.1) */
